@@ -946,6 +946,16 @@ public:
   unsigned getNumErrors() const { return numErrors; }
 };
 
+/// The signature a command's result is stored under: the command line and, for
+/// a command which takes its arguments from a response file, the contents of
+/// that file (as Ninja does), which are not part of the command line.
+static CommandSignature computeCommandHash(ninja::Command* command) {
+  CommandSignature hash(command->getCommandString());
+  if (!command->getRspFile().empty())
+    hash = hash.combine(command->getRspFileContent());
+  return hash;
+}
+
 static core::Task*
 buildCommand(BuildContext& context, ninja::Command* command) {
   struct NinjaCommandTask : core::Task {
@@ -1141,7 +1151,7 @@ buildCommand(BuildContext& context, ninja::Command* command) {
       //
       // FIXME: Is it right to bring this up-to-date when one of the inputs
       // indicated a failure? It probably doesn't matter.
-      auto commandHash = CommandSignature(command->getCommandString());
+      auto commandHash = computeCommandHash(command);
       if (command->getRule() == context.manifest->getPhonyRule()) {
         // Get the result.
         BuildValue result = computeCommandResult(commandHash);
@@ -1365,7 +1375,7 @@ buildCommand(BuildContext& context, ninja::Command* command) {
           //
           // We always restat the output, but we honor Ninja's restat flag by
           // forcing downstream propagation if it isn't set.
-          auto commandHash = CommandSignature(command->getCommandString());
+          auto commandHash = computeCommandHash(command);
           BuildValue resultValue = computeCommandResult(commandHash);
 
           // Remove response file.
@@ -1627,8 +1637,7 @@ static bool buildCommandIsResultValid(ninja::Command* command,
 
   // For non-generator commands, if the command hash has changed, recompute.
   if (!command->hasGeneratorFlag()) {
-    if (value.getCommandHash() != CommandSignature(
-          command->getCommandString()))
+    if (value.getCommandHash() != computeCommandHash(command))
       return false;
   }
 
@@ -1661,7 +1670,7 @@ static bool selectCompositeIsResultValid(ninja::Command* command,
   // If the command's signature has changed since it was built, rebuild. This is
   // important for ensuring that we properly reevaluate the select rule when
   // it's incoming composite rule no longer exists.
-  if (value.getCommandHash() != CommandSignature(command->getCommandString()))
+  if (value.getCommandHash() != computeCommandHash(command))
     return false;
 
   // Otherwise, this result is always valid.
